@@ -373,6 +373,9 @@ protected:
     template<bool have_pool>
     async<void> worker_coro(std::stop_token state) {
         std::stop_callback stop_notify(state, [&]{
+            //notify under the lock, otherwise the worker can miss the notification
+            //between the test of the stop state and the wait
+            std::lock_guard _(_mx);
             _cond.notify_all();
         });
         std::unique_lock lk(_mx);
